@@ -25,7 +25,7 @@ LEVEL = "exploration"
 RULE = ("scenario = version (none / supported / cutoff +-1 day,month,year / random dddd-dd-dd 1990..2199) set by handshake or setter, "
         "+ server lines (single messages and batch arrays of 0..4 valid/invalid members, chunked) + version changes mid-connection; "
         "non-trivial = at least one batch array was processed; distinct also varies with the version stratum")
-PROBES = ["handshake_counter_proposal", "rejection_while_outgoing_saturated", "legacy_request_streams_registered", "batch_rejected", "batch_accepted", "version_change_same_instant_as_batch", "mode_flipped_mid_connection",
+PROBES = ["notification_side_stream_full", "handshake_counter_proposal", "rejection_while_outgoing_saturated", "legacy_request_streams_registered", "batch_rejected", "batch_accepted", "version_change_same_instant_as_batch", "mode_flipped_mid_connection",
           "invalid_member_dropped", "empty_batch", "handshake_set_version", "cutoff_neighbour_version"]
 TIERS = {"quick": {"runs": 15000, "wall": 45.0}, "thorough": {"runs": 1000000, "wall": 560.0}}
 ASSUMPTIONS = [
@@ -87,6 +87,10 @@ def member_json(m):
             "params_scalar": {"jsonrpc": "2.0", "id": k, "method": "m", "params": 3}}[m["invalid"]]
 
 
+def _prelude_note(q):
+    return {"jsonrpc": "2.0", "method": "notifications/progress", "params": {"progressToken": "p", "progress": q}}
+
+
 def generate(rng: random.Random, tier: str) -> dict:
     setup = rng.choice(["none", "setter", "setter", "handshake", "handshake"])
     v0 = None if setup == "none" else _rand_version(rng)
@@ -118,6 +122,8 @@ def generate(rng: random.Random, tier: str) -> dict:
             # handshake only: the client proposes another version and the server counter-proposes v0 (both in the client's list)
             "proposed_other": (rng.choice(["2025-06-18", "2025-03-26", "2024-11-05", "2025-06-17", "2026-01-01"]) if setup == "handshake" and rng.random() < 0.5 else None),
             "big_frame": rng.random() < 0.5,
+            # nobody reads StdioClient.notifications (stdio_client() does not even expose it) and >= 100 notifications arrived earlier
+            "undrained": (rng.choice([99, 100, 101, 120]) if rng.random() < 0.06 else None),
             "saturate": ({"n": rng.choice([101, 105, 130]), "resume_at": max(ln["t"] for ln in lines) + rng.choice([5, 50, 400])} if saturate_draw else None)}
 
 
@@ -126,6 +132,8 @@ def simplify(scn):
         c = copy.deepcopy(scn); c["proposed_other"] = None; yield c
     if scn.get("saturate"):
         c = copy.deepcopy(scn); c["saturate"] = None; yield c
+    if scn.get("undrained"):
+        c = copy.deepcopy(scn); c["undrained"] = None; yield c
     if scn.get("legacy_streams"):
         c = copy.deepcopy(scn); c["legacy_streams"] = None; yield c
     if scn["setup"] == "handshake":
@@ -223,6 +231,10 @@ def execute(scn: dict) -> dict:
                     sim.fault("outgoing_queue_saturated")
                 base = sim.now()
                 st["base"] = base
+                if scn.get("undrained"):
+                    pre = b"".join(json.dumps(_prelude_note(q)).encode() + b"\n" for q in range(scn["undrained"]))
+                    sim.at(base + ticks(10), child.write_stdout, [pre[:777], pre[777:]], tie=0)
+                    sim.fault("notification_side_stream_never_read")
                 for ch in scn["changes"]:
                     sim.at(base + ticks(ch["t"]), set_version, ch["v"], "change", tie=ch["tie"], hops=ch["hops"])
                 for i, ln in enumerate(scn["lines"]):
@@ -234,7 +246,8 @@ def execute(scn: dict) -> dict:
                 last = max([ln["t"] for ln in scn["lines"]] + [c["t"] for c in scn["changes"]] + [0] + ([scn["saturate"]["resume_at"]] if scn.get("saturate") else []))
                 async with anyio.create_task_group() as tg:
                     tg.start_soon(drain, read_stream, st["read"], name="drain-read")
-                    tg.start_soon(drain, client.notifications, st["notif"], name="drain-notif")
+                    if not scn.get("undrained"):
+                        tg.start_soon(drain, client.notifications, st["notif"], name="drain-notif")
                     await anyio.sleep(ticks(last) + 1.0)
                     tg.cancel_scope.cancel()
                 st["stdin_lines"] = list(child.lines_in)
@@ -294,6 +307,10 @@ def execute(scn: dict) -> dict:
         return poss, bool(same)
 
     segs = []  # per line: list of alternatives (read_seq, stdin_count)
+    if scn.get("undrained"):
+        segs.append([([_prelude_note(q) for q in range(scn["undrained"])], 0)])
+        if scn["undrained"] >= 100:
+            probe("notification_side_stream_full")
     any_batch = False
     # the child writes lines in (time, loop-iteration offset, index) order
     ordered_lines = [ln for (_k, ln) in sorted(enumerate(scn["lines"]), key=lambda p: (p[1]["t"], p[1]["hops"], p[0]))]
